@@ -114,6 +114,19 @@ def reduceClasses (classes : List Cls) : Option (List Cls) :=
           attrs := attrs.map (fun a => { a with types := filterTypes a.types })
           mixed := kv.2.any (·.mixed) }
 
+/-! ### the order of the merged attrs -/
+
+/-- `xs` appears in `ys` in the same relative order (up to `Attr.same`) -/
+def SubseqKeys : List Attr → List Attr → Bool
+  | [], _ => true
+  | _ :: _, [] => false
+  | x :: xs, y :: ys => if x.same y then SubseqKeys xs ys else SubseqKeys (x :: xs) ys
+
+/-- the order `sorted_attrs` derives is a linear extension of the order of every class it merged
+(the decidable complement of the region of finding C13-field-order-greedy-merge) -/
+def orderRespected (classes : List (List Attr)) : Bool :=
+  classes.all (fun c => SubseqKeys c (sortedAttrs (sortByLenDesc classes)))
+
 /-! ### what "the merged model admits this occurrence" means at the level of attrs -/
 
 /-- an occurrence's attr fits the merged attr: the merged bounds contain its own -/
